@@ -406,9 +406,7 @@ def _enum_fixed(arch, tier):
             if thorough:
                 tl = tails
             else:
-                k = _h("tail", fam, h1)
-                tl = [tails[k % len(tails)], tails[(k // 7 + 1 + k % len(tails)) % len(tails)]]
-                tl = tl[:2] if tl[0] != tl[1] else tl[:1]
+                tl = [tails[_h("tail", fam, h1) % len(tails)]]
             for t in tl:
                 yield to_mem(arch, h1.to_bytes(2, "big") + t)
         return
